@@ -216,8 +216,9 @@ def gen_host(rng: Any, ssh_safe: bool) -> str:
     pats = []
     for _ in range(rng.choice([1, 1, 2, 3])):
         p = gen_pattern(rng, HOSTS)
-        # OpenSSH separates Host patterns by whitespace only (a comma is an ordinary character there)
-        pats += p.split(',') if ssh_safe else [p]
+        # OpenSSH separates Host patterns by whitespace only (a comma is an ordinary character there; asyncssh used
+        # to split at commas - repaired); comma-containing arguments are kept as they are, also for `ssh -G`
+        pats += [p]
     return spell_keyword(rng, 'Host') + rng.choice([' ', ' ', '\t', '=' if not ssh_safe else ' ']) + ' '.join(pats)
 
 
